@@ -176,6 +176,30 @@ def linestr(ctx, off):
     yield from one(dw.get_string_from_linetable, off)
 
 
+@op('dw_flags')
+def dw_flags(ctx):
+    ok, dw = _dw(ctx)
+    if not ok:
+        yield dw
+        return
+    yield from one(dw.has_debug_info)
+    yield from one(dw.has_debug_types)
+    yield from one(dw.has_CFI)
+    yield from one(dw.has_EH_CFI)
+
+
+@op('addr_get')
+def addr_get(ctx, cu_off, idx):
+    ok, dw = _dw(ctx)
+    if not ok:
+        yield dw
+        return
+    ok, cu = yield from one(dw.get_CU_at, cu_off)
+    if not ok:
+        return
+    yield from one(dw.get_addr, cu, idx)
+
+
 def _entries_digest(entries):
     return ('entries', len(entries), digest(canon(entries)))
 
